@@ -81,7 +81,7 @@ func init() {
 func init() {
 	properties["C07"] = propDef{run: func(c *Ctx) *PropertyRun {
 		return &PropertyRun{Level: "other", Trusted: trustedBase, Assume: commonAssumptions,
-			Rules: []*RuleResult{c.rule("R21", ruleR21)},
+			Rules: []*RuleResult{c.rule("R21", ruleR21), c.rule("R11", ruleR11)},
 			Explain: "partial"}
 	}}
 }
